@@ -1,8 +1,563 @@
 import Sigc.Basic
-/-! component model `Visit` — see DESIGN.md §3.2 (stub, replaced by the real model) -/
+/-!
+  Component model `Visit` (property C09): which trackables a slot made from a functor expression
+  registers itself in, following every `sigc::visitor<>` specialisation member by member.
+
+  Code modelled (current /repo tree):
+  * `visit_each.h`            : primary `visitor<T>` (= `action(functor)`), `limit_trackable_target`,
+                                 `visit_each_trackable`
+  * `limit_reference.h`       : `limit_reference<T, is_base_of<trackable,T>>`, `visitor<limit_reference>`
+  * `adaptors/bound_argument.h`: `bound_argument<T>`, `<reference_wrapper<T>>`, `<reference_wrapper<const T>>`
+  * `adaptors/adaptor_trait.h`: `adaptor_functor` (wrapper of every non-adaptor functor stored in an adaptor/slot)
+  * `functors/mem_fun.h`      : `visitor<bound_mem_functor>`  (also `signal::make_slot()`, `signal_connect`)
+  * `adaptors/{bind,bind_return,hide,retype,retype_return,compose,exception_catch,track_obj}.h`
+  * `tuple_for_each<TupleVisitorVisitEach>` : every element of the tuple, in order
+  * `functors/slot.h`         : `typed_slot_rep` ctor / copy-ctor (`slot_do_bind`), `destroy()` (`slot_do_unbind`),
+                                 `visitor<slot>` (sets / unsets the *parent* of the inner rep, registers nothing)
+  * `trackable.cc`            : `add_callback`, `remove_callback` (first live entry with that data)
+
+  The member list of each visitor is the explicit table `codeTable`; `scan` interprets *a* table, so the
+  theorems are about the table as written and the unrepaired `bind<I>` row can be stated next to it.
+  No proofs in this file.
+-/
 namespace Sigc.Visit
 
-/-- one driver case per input line → one output line -/
-def processLine (line : String) : String := "unimplemented " ++ line
+/-- how the class of a referenced object relates to `sigc::trackable` -/
+inductive Kind
+  | direct     -- `struct T : sigc::trackable` (also `sigc::trackable_signal`)
+  | vbase      -- `struct T : virtual sigc::trackable` (possibly through an intermediate class)
+  | untracked  -- not derived from `sigc::trackable` (plain struct, `sigc::signal`)
+  deriving DecidableEq, Repr
+
+/-- `std::is_base_of<sigc::trackable, T>` -/
+def Kind.derivesTrackable : Kind → Bool
+  | .untracked => false
+  | _ => true
+
+/-- an object of user code that an expression may refer to -/
+structure Obj where
+  id : Nat
+  kind : Kind
+  deriving DecidableEq, Repr
+
+/-- the trackable behind an object, if it has one (statement side) -/
+def Obj.trk (o : Obj) : List Nat := if o.kind.derivesTrackable then [o.id] else []
+
+/-- a bound argument of `bind` / `bind_return` -/
+inductive BArg
+  | val               -- a plain value (int)
+  | ref (o : Obj)     -- `std::ref(o)`
+  | cref (o : Obj)    -- `std::cref(o)`
+  | copy (o : Obj)    -- `o` passed by value: the functor owns a private copy, `o` itself is NOT referred to
+  deriving DecidableEq, Repr
+
+/-- functor expressions of C09's grammar -/
+inductive FExpr
+  | leaf                                              -- function pointer / lambda / functor object
+  | memFun (o : Obj)                                  -- `mem_fun(o, &T::m)`  (bound_mem_functor)
+  | makeSlot (g : Obj)                                -- `g.make_slot()` (bound_mem_functor on the signal object)
+  | signalConnect (o : Obj)                           -- `signal_connect(sig, o, &T::m)` = `sig.connect(mem_fun(o,&T::m))`
+  | bind (pos : Option Nat) (f : FExpr) (bs : List BArg)  -- `bind<I>(f, bs…)` / `bind(f, bs…)` (`none` = -1)
+  | bindReturn (f : FExpr) (b : BArg)
+  | hide (pos : Option Nat) (f : FExpr)
+  | hideReturn (f : FExpr)                            -- `retype_return_functor<void, F>`
+  | retype (f : FExpr)
+  | retypeReturn (f : FExpr)
+  | compose1 (s g : FExpr)
+  | compose2 (s g1 g2 : FExpr)
+  | exceptionCatch (f c : FExpr)
+  | trackObj (f : FExpr) (ts : List Obj)              -- `track_obj` / `track_object`
+  | slot (f : FExpr)                                  -- a `sigc::slot<…>(f)` stored by value
+  deriving Repr
+
+/-- `std::is_base_of<adaptor_base, T>`: non-adaptors are wrapped in `adaptor_functor` when stored -/
+def FExpr.isAdaptor : FExpr → Bool
+  | .leaf | .memFun _ | .makeSlot _ | .signalConnect _ | .slot _ => false
+  | _ => true
+
+/-! ## statement side -/
+
+def BArg.refs : BArg → List Nat
+  | .val => []
+  | .ref o => o.trk
+  | .cref o => o.trk
+  | .copy _ => []
+
+/-- every trackable the expression refers to *by reference* (with multiplicity) -/
+def referenced : FExpr → List Nat
+  | .leaf => []
+  | .memFun o => o.trk
+  | .makeSlot g => g.trk
+  | .signalConnect o => o.trk
+  | .bind _ f bs => referenced f ++ bs.flatMap BArg.refs
+  | .bindReturn f b => referenced f ++ b.refs
+  | .hide _ f => referenced f
+  | .hideReturn f => referenced f
+  | .retype f => referenced f
+  | .retypeReturn f => referenced f
+  | .compose1 s g => referenced s ++ referenced g
+  | .compose2 s g1 g2 => referenced s ++ referenced g1 ++ referenced g2
+  | .exceptionCatch f c => referenced f ++ referenced c
+  | .trackObj f ts => referenced f ++ ts.flatMap Obj.trk
+  | .slot f => referenced f
+
+/-- nesting depth of an expression (leaves have depth 0) -/
+def depth : FExpr → Nat
+  | .leaf | .memFun _ | .makeSlot _ | .signalConnect _ => 0
+  | .bind _ f _ | .bindReturn f _ | .hide _ f | .hideReturn f | .retype f | .retypeReturn f
+  | .trackObj f _ | .slot f => depth f + 1
+  | .compose1 s g => max (depth s) (depth g) + 1
+  | .compose2 s g1 g2 => max (depth s) (max (depth g1) (depth g2)) + 1
+  | .exceptionCatch f c => max (depth f) (depth c) + 1
+
+/-! ## mechanism side -/
+
+/-- what a registration lands in -/
+inductive Tgt
+  | ext (id : Nat)   -- a trackable of user code
+  | own (id : Nat)   -- the functor's private by-value copy of object `id` (lives and dies with the functor)
+  deriving DecidableEq, Repr
+
+/-- What `visit_each_trackable(slot_do_bind(rep), functor)` does for one `typed_slot_rep`, in visiting order:
+    `reg t` = `t.add_destroy_notify_callback(rep, &notify_slot_rep_invalidated)`;
+    `kid inner` = `visitor<slot>`: `inner.rep_->set_parent(rep, &notify_slot_rep_invalidated)` where `inner`
+    is the record of the inner slot's own rep (constructed by the functor copy). -/
+inductive Rep
+  | done
+  | reg (t : Tgt) (rest : Rep)
+  | kid (inner : Rep) (rest : Rep)
+  deriving DecidableEq, Repr
+
+def Rep.append : Rep → Rep → Rep
+  | .done, b => b
+  | .reg t r, b => .reg t (r.append b)
+  | .kid k r, b => .kid k (r.append b)
+
+def Rep.seq (rs : List Rep) : Rep := rs.foldr Rep.append .done
+
+/-- registrations of this rep itself -/
+def Rep.regs : Rep → List Tgt
+  | .done => []
+  | .reg t r => t :: r.regs
+  | .kid _ r => r.regs
+
+/-- inner reps whose parent is this rep -/
+def Rep.kids : Rep → List Rep
+  | .done => []
+  | .reg _ r => r.kids
+  | .kid k r => k :: r.kids
+
+/-- registrations of this rep and of every rep it (transitively) owns -/
+def Rep.allRegs : Rep → List Tgt
+  | .done => []
+  | .reg t r => t :: r.allRegs
+  | .kid k r => k.allRegs ++ r.allRegs
+
+/-- number of reps in the tree below (and excluding) this one -/
+def Rep.innerCount : Rep → Nat
+  | .done => 0
+  | .reg _ r => r.innerCount
+  | .kid k r => 1 + k.innerCount + r.innerCount
+
+/-- `~trackable(t)` → `notify_callbacks` → for every entry `(rep, notify_slot_rep_invalidated)`:
+    `rep->call_ = nullptr; rep->disconnect()` which calls the parent's `cleanup_(parent_)` =
+    `notify_slot_rep_invalidated(outer rep)`.  So a rep is invalidated iff it holds a registration in `t`
+    or one of the reps whose parent it is gets invalidated. -/
+def Rep.invalidatedBy (t : Nat) : Rep → Bool
+  | .done => false
+  | .reg u r => (u == Tgt.ext t) || r.invalidatedBy t
+  | .kid k r => k.invalidatedBy t || r.invalidatedBy t
+
+def extIds : List Tgt → List Nat
+  | [] => []
+  | .ext i :: l => i :: extIds l
+  | .own _ :: l => extIds l
+
+def ownIds : List Tgt → List Nat
+  | [] => []
+  | .ext _ :: l => ownIds l
+  | .own i :: l => i :: ownIds l
+
+/-! ### the visitor table -/
+
+/-- one entry per `visitor<>` specialisation of the library -/
+inductive VSpec
+  | primary            -- visit_each.h: `template<T> struct visitor`
+  | limit_reference    -- limit_reference.h
+  | bound_argument     -- adaptors/bound_argument.h
+  | adaptor_functor    -- adaptors/adaptor_trait.h
+  | bound_mem_functor  -- functors/mem_fun.h
+  | bind_loc           -- adaptors/bind.h `visitor<bind_functor<T_loc,…>>`
+  | bind_last          -- adaptors/bind.h `visitor<bind_functor<-1,…>>`
+  | bind_return
+  | hide
+  | retype
+  | retype_return      -- also hide_return
+  | compose1
+  | compose2
+  | exception_catch
+  | track_obj
+  | slot               -- functors/slot.h `visitor<slot<…>>` (bind/unbind overloads)
+  deriving DecidableEq, Repr
+
+/-- what a visitor passes on -/
+inductive Mem
+  | self         -- `action(functor)`
+  | visit        -- `target.visit()`
+  | functor_
+  | obj_         -- `bound_mem_functor::obj_`
+  | bound_       -- whole tuple through `tuple_for_each<TupleVisitorVisitEach>`
+  | bound_0      -- `std::get<0>(target.bound_)` only
+  | ret_value_
+  | get_
+  | get1_
+  | get2_
+  | catcher_
+  | objs_        -- `track_obj_functor::obj_` tuple through `tuple_for_each`
+  | rep_parent   -- `target.rep_->set_parent(action.action_.rep_, …)` / `unset_parent()`
+  deriving DecidableEq, Repr
+
+abbrev Table := VSpec → List Mem
+
+/-- the table of the current tree, each row in the order of the `visit_each` calls in the source -/
+def codeTable : Table
+  | .primary           => [.self]
+  | .limit_reference   => [.visit]
+  | .bound_argument    => [.visit]
+  | .adaptor_functor   => [.functor_]
+  | .bound_mem_functor => [.obj_]
+  | .bind_loc          => [.functor_, .bound_]
+  | .bind_last         => [.functor_, .bound_]
+  | .bind_return       => [.ret_value_, .functor_]
+  | .hide              => [.functor_]
+  | .retype            => [.functor_]
+  | .retype_return     => [.functor_]
+  | .compose1          => [.functor_, .get_]
+  | .compose2          => [.functor_, .get1_, .get2_]
+  | .exception_catch   => [.functor_, .catcher_]
+  | .track_obj         => [.functor_, .objs_]
+  | .slot              => [.rep_parent]
+
+/-- the table before "fix: bind<I>() visitor must visit every bound argument" (finding F1) -/
+def unrepairedTable : Table
+  | .bind_loc => [.functor_, .bound_0]
+  | s => codeTable s
+
+/-- run one row: every member of the row, in order, interpreted by `f` -/
+def row (tbl : Table) (s : VSpec) (f : Mem → Rep) : Rep := Rep.seq ((tbl s).map f)
+
+/-- primary `visitor<T>` on an object whose static type is `T`; the action is a
+    `limit_trackable_target`, which calls `slot_do_bind` iff `is_base_of_or_same_v<trackable, T>` -/
+def visitPrimary (tbl : Table) (t : Tgt) (isTrackableType : Bool) : Rep :=
+  row tbl .primary fun
+    | .self => if isTrackableType then .reg t .done else .done
+    | _ => .done
+
+/-- `visitor<limit_reference<T>>`: `visit_each(action, target.visit())`.  For `is_base_of<trackable,T>`
+    `visit()` is the `trackable&` base sub-object (found through the virtual base if there is one),
+    otherwise the `T&` itself, which `limit_trackable_target` then drops. -/
+def visitLimRef (tbl : Table) (o : Obj) : Rep :=
+  row tbl .limit_reference fun
+    | .visit => visitPrimary tbl (.ext o.id) o.kind.derivesTrackable
+    | _ => .done
+
+/-- `visitor<bound_argument<T>>`: `visit_each(action, arg.visit())` -/
+def visitBound (tbl : Table) (b : BArg) : Rep :=
+  row tbl .bound_argument fun
+    | .visit =>
+      match b with
+      | .val => visitPrimary tbl (.own 0) false
+      | .ref o => visitLimRef tbl o
+      | .cref o => visitLimRef tbl o
+      | .copy o => visitPrimary tbl (.own o.id) o.kind.derivesTrackable
+    | _ => .done
+
+/-- `tuple_for_each<TupleVisitorVisitEach>(tuple, action)` -/
+def visitTuple (tbl : Table) (bs : List BArg) : Rep := Rep.seq (bs.map (visitBound tbl))
+
+def visitObjs (tbl : Table) (ts : List Obj) : Rep := Rep.seq (ts.map (visitLimRef tbl))
+
+/-- a functor stored in `adapts<T>::functor_` / `typed_slot_rep::functor_`: its `adaptor_type` is `T` for
+    adaptors and `adaptor_functor<T>` otherwise -/
+def stored (tbl : Table) (isAd : Bool) (r : Rep) : Rep :=
+  if isAd then r else row tbl .adaptor_functor fun
+    | .functor_ => r
+    | _ => .done
+
+/-- `visit_each(limit_trackable_target<slot_do_bind>, e)` -/
+def scan (tbl : Table) : FExpr → Rep
+  | .leaf => visitPrimary tbl (.own 0) false
+  | .memFun o => row tbl .bound_mem_functor fun
+      | .obj_ => visitLimRef tbl o
+      | _ => .done
+  | .makeSlot g => row tbl .bound_mem_functor fun
+      | .obj_ => visitLimRef tbl g
+      | _ => .done
+  | .signalConnect o => row tbl .bound_mem_functor fun
+      | .obj_ => visitLimRef tbl o
+      | _ => .done
+  | .bind (some _) f bs => row tbl .bind_loc fun
+      | .functor_ => stored tbl f.isAdaptor (scan tbl f)
+      | .bound_ => visitTuple tbl bs
+      | .bound_0 => visitTuple tbl (bs.take 1)
+      | _ => .done
+  | .bind none f bs => row tbl .bind_last fun
+      | .functor_ => stored tbl f.isAdaptor (scan tbl f)
+      | .bound_ => visitTuple tbl bs
+      | .bound_0 => visitTuple tbl (bs.take 1)
+      | _ => .done
+  | .bindReturn f b => row tbl .bind_return fun
+      | .functor_ => stored tbl f.isAdaptor (scan tbl f)
+      | .ret_value_ => visitBound tbl b
+      | _ => .done
+  | .hide _ f => row tbl .hide fun
+      | .functor_ => stored tbl f.isAdaptor (scan tbl f)
+      | _ => .done
+  | .hideReturn f => row tbl .retype_return fun
+      | .functor_ => stored tbl f.isAdaptor (scan tbl f)
+      | _ => .done
+  | .retype f => row tbl .retype fun
+      | .functor_ => stored tbl f.isAdaptor (scan tbl f)
+      | _ => .done
+  | .retypeReturn f => row tbl .retype_return fun
+      | .functor_ => stored tbl f.isAdaptor (scan tbl f)
+      | _ => .done
+  | .compose1 s g => row tbl .compose1 fun
+      | .functor_ => stored tbl s.isAdaptor (scan tbl s)
+      | .get_ => scan tbl g
+      | _ => .done
+  | .compose2 s g1 g2 => row tbl .compose2 fun
+      | .functor_ => stored tbl s.isAdaptor (scan tbl s)
+      | .get1_ => scan tbl g1
+      | .get2_ => scan tbl g2
+      | _ => .done
+  | .exceptionCatch f c => row tbl .exception_catch fun
+      | .functor_ => stored tbl f.isAdaptor (scan tbl f)
+      | .catcher_ => scan tbl c
+      | _ => .done
+  | .trackObj f ts => row tbl .track_obj fun
+      | .functor_ => stored tbl f.isAdaptor (scan tbl f)
+      | .objs_ => visitObjs tbl ts
+      | _ => .done
+  | .slot f => row tbl .slot fun
+      | .rep_parent => .kid (stored tbl f.isAdaptor (scan tbl f)) .done
+      | _ => .done
+
+/-- the record of the `typed_slot_rep` of `slot<…>(e)` (its functor is stored as `adaptor_type`) -/
+def repOf (tbl : Table) (e : FExpr) : Rep := stored tbl e.isAdaptor (scan tbl e)
+
+/-- registrations made by the slot's own rep (user trackables), with a given table -/
+def visitedWith (tbl : Table) (e : FExpr) : List Nat := extIds (repOf tbl e).regs
+
+/-- registrations made by the slot's own rep and by every inner rep it owns -/
+def visitedAllWith (tbl : Table) (e : FExpr) : List Nat := extIds (repOf tbl e).allRegs
+
+def visited (e : FExpr) : List Nat := visitedWith codeTable e
+def visitedAll (e : FExpr) : List Nat := visitedAllWith codeTable e
+
+/-- destroying trackable `t` invalidates a slot made from `e` (directly or through the parent chain) -/
+def ties (e : FExpr) (t : Nat) : Bool := (repOf codeTable e).invalidatedBy t
+
+/-- no `slot` stored anywhere inside -/
+def slotFree : FExpr → Bool
+  | .leaf | .memFun _ | .makeSlot _ | .signalConnect _ => true
+  | .bind _ f _ | .bindReturn f _ | .hide _ f | .hideReturn f | .retype f | .retypeReturn f
+  | .trackObj f _ => slotFree f
+  | .compose1 s g => slotFree s && slotFree g
+  | .compose2 s g1 g2 => slotFree s && slotFree g1 && slotFree g2
+  | .exceptionCatch f c => slotFree f && slotFree c
+  | .slot _ => false
+
+/-! ## the callback list of one trackable (`trackable_callback_list`) -/
+
+/-- `trackable_callback`: `data_` and whether `func_` is non-null -/
+structure Entry where
+  data : Nat
+  live : Bool
+  deriving DecidableEq, Repr
+
+/-- `add_callback` (ignored while `clearing_`) -/
+def addCb (clearing : Bool) (d : Nat) (l : List Entry) : List Entry :=
+  if clearing then l else l ++ [⟨d, true⟩]
+
+/-- `remove_callback`: the first entry with that data and a non-null func is erased
+    (only nulled while `clearing_`) -/
+def removeCb (clearing : Bool) (d : Nat) : List Entry → List Entry
+  | [] => []
+  | e :: l =>
+    if e.data = d ∧ e.live = true then
+      (if clearing then { e with live := false } :: l else l)
+    else e :: removeCb clearing d l
+
+/-- number of live entries with data `d` -/
+def liveCount (d : Nat) : List Entry → Nat
+  | [] => 0
+  | e :: l => (if e.data = d ∧ e.live = true then 1 else 0) + liveCount d l
+
+/-- the entries of everybody but `d` -/
+def others (d : Nat) (l : List Entry) : List Entry := l.filter (fun e => e.data ≠ d)
+
+/-- the callback lists of all registration targets (none of them is being destroyed) -/
+abbrev World := Tgt → List Entry
+
+inductive Op
+  | add (t : Tgt) (d : Nat)      -- `t.add_destroy_notify_callback(d, …)`   (`slot_do_bind`)
+  | remove (t : Tgt) (d : Nat)   -- `t.remove_destroy_notify_callback(d)`   (`slot_do_unbind`)
+  deriving DecidableEq, Repr
+
+def Op.data : Op → Nat
+  | .add _ d => d
+  | .remove _ d => d
+
+def step (w : World) : Op → World
+  | .add t d => fun u => if u = t then addCb false d (w u) else w u
+  | .remove t d => fun u => if u = t then removeCb false d (w u) else w u
+
+def run (w : World) (ops : List Op) : World := ops.foldl step w
+
+/-- `typed_slot_rep` ctor / copy-ctor: `visit_each_trackable(slot_do_bind(this), *functor_)` -/
+def bindOps (r : Nat) (ts : List Tgt) : List Op := ts.map (fun t => Op.add t r)
+
+/-- `typed_slot_rep::destroy()`: `visit_each_trackable(slot_do_unbind(this), *functor_)` — the same
+    visitors with another action, hence the same targets in the same order -/
+def unbindOps (r : Nat) (ts : List Tgt) : List Op := ts.map (fun t => Op.remove t r)
+
+/-- `s` is an interleaving of `a` and `b` (both keep their order) -/
+inductive Interleave : List Op → List Op → List Op → Prop
+  | nil : Interleave [] [] []
+  | left (x : Op) {a b s : List Op} : Interleave a b s → Interleave (x :: a) b (x :: s)
+  | right (x : Op) {a b s : List Op} : Interleave a b s → Interleave a (x :: b) (x :: s)
+
+/-! ## driver -/
+
+def parseObj (s : String) : Option Obj :=
+  match s.toList with
+  | c :: ds =>
+    match (String.ofList ds).toNat? with
+    | some n =>
+      if c = 'd' then some ⟨n, .direct⟩
+      else if c = 'v' then some ⟨n, .vbase⟩
+      else if c = 'u' then some ⟨n, .untracked⟩
+      else none
+    | none => none
+  | [] => none
+
+def parsePos (s : String) : Option (Option Nat) :=
+  if s = "L" then some none else (s.toNat?).map some
+
+def parseBArg : List String → Option (BArg × List String)
+  | "val" :: r => some (.val, r)
+  | "ref" :: o :: r => (parseObj o).map fun o => (.ref o, r)
+  | "cref" :: o :: r => (parseObj o).map fun o => (.cref o, r)
+  | "copy" :: o :: r => (parseObj o).map fun o => (.copy o, r)
+  | _ => none
+
+def parseBArgs : Nat → List String → Option (List BArg × List String)
+  | 0, r => some ([], r)
+  | n + 1, r =>
+    match parseBArg r with
+    | some (b, r1) =>
+      match parseBArgs n r1 with
+      | some (bs, r2) => some (b :: bs, r2)
+      | none => none
+    | none => none
+
+def parseObjs : Nat → List String → Option (List Obj × List String)
+  | 0, r => some ([], r)
+  | _ + 1, [] => none
+  | n + 1, o :: r =>
+    match parseObj o, parseObjs n r with
+    | some o, some (os, r2) => some (o :: os, r2)
+    | _, _ => none
+
+/-- prefix notation, `fuel` ≥ number of tokens -/
+def parseE : Nat → List String → Option (FExpr × List String)
+  | 0, _ => none
+  | fuel + 1, toks =>
+    let p := parseE fuel
+    match toks with
+    | "leaf" :: r => some (.leaf, r)
+    | "mf" :: o :: r => (parseObj o).map fun o => (.memFun o, r)
+    | "ms" :: o :: r => (parseObj o).map fun o => (.makeSlot o, r)
+    | "sc" :: o :: r => (parseObj o).map fun o => (.signalConnect o, r)
+    | "bind" :: pos :: n :: r =>
+      match parsePos pos, n.toNat?, p r with
+      | some pos, some n, some (f, r1) =>
+        (parseBArgs n r1).map fun (bs, r2) => (.bind pos f bs, r2)
+      | _, _, _ => none
+    | "bret" :: r =>
+      match p r with
+      | some (f, r1) => (parseBArg r1).map fun (b, r2) => (.bindReturn f b, r2)
+      | none => none
+    | "hide" :: pos :: r =>
+      match parsePos pos, p r with
+      | some pos, some (f, r1) => some (.hide pos f, r1)
+      | _, _ => none
+    | "hret" :: r => (p r).map fun (f, r1) => (.hideReturn f, r1)
+    | "rt" :: r => (p r).map fun (f, r1) => (.retype f, r1)
+    | "rtr" :: r => (p r).map fun (f, r1) => (.retypeReturn f, r1)
+    | "slot" :: r => (p r).map fun (f, r1) => (.slot f, r1)
+    | "c1" :: r =>
+      match p r with
+      | some (s, r1) => (p r1).map fun (g, r2) => (.compose1 s g, r2)
+      | none => none
+    | "c2" :: r =>
+      match p r with
+      | some (s, r1) =>
+        match p r1 with
+        | some (g1, r2) => (p r2).map fun (g2, r3) => (.compose2 s g1 g2, r3)
+        | none => none
+      | none => none
+    | "ec" :: r =>
+      match p r with
+      | some (f, r1) => (p r1).map fun (c, r2) => (.exceptionCatch f c, r2)
+      | none => none
+    | "to" :: n :: r =>
+      match n.toNat?, p r with
+      | some n, some (f, r1) => (parseObjs n r1).map fun (os, r2) => (.trackObj f os, r2)
+      | _, _ => none
+    | _ => none
+
+def showNats (l : List Nat) : String := ",".intercalate (l.map toString)
+
+def showTgts (l : List Tgt) : String :=
+  ",".intercalate (l.map fun | .ext i => toString i | .own i => "own" ++ toString i)
+
+def dedup : List Nat → List Nat
+  | [] => []
+  | x :: l => x :: (dedup l).filter (· ≠ x)
+
+/-- all ids (trackable or not) occurring in a `Rep` or in `referenced` are candidates for "tied" -/
+def tiedIds (e : FExpr) : List Nat :=
+  (dedup (visitedAll e ++ referenced e)).filter (fun t => ties e t)
+
+def showTable (tbl : Table) : String :=
+  let specs : List VSpec := [.primary, .limit_reference, .bound_argument, .adaptor_functor,
+    .bound_mem_functor, .bind_loc, .bind_last, .bind_return, .hide, .retype, .retype_return, .compose1,
+    .compose2, .exception_catch, .track_obj, .slot]
+  let short (x : String) : String := (x.splitOn ".").getLastD ""
+  " ".intercalate (specs.map fun s =>
+    short (reprStr s) ++ "=" ++ ",".intercalate ((tbl s).map fun m => short (reprStr m)))
+
+/-- one driver case per input line → one output line.
+    `<expr in prefix notation>`  →  `regs=<own rep's targets in visiting order> all=<incl. inner reps>
+    refd=<referenced> tied=<ids whose destruction invalidates> kids=<inner reps> depth=<n>`;
+    `table` prints the visitor table; `old <expr>` evaluates with the unrepaired table. -/
+def processLine (line : String) : String :=
+  match words line with
+  | ["table"] => "table " ++ showTable codeTable
+  | "old" :: toks =>
+    match parseE (toks.length + 1) toks with
+    | some (e, []) => "regs=" ++ showTgts (repOf unrepairedTable e).regs
+        ++ " all=" ++ showTgts (repOf unrepairedTable e).allRegs ++ " refd=" ++ showNats (referenced e)
+    | _ => "parse-error"
+  | toks =>
+    match parseE (toks.length + 1) toks with
+    | some (e, []) =>
+      let r := repOf codeTable e
+      "regs=" ++ showTgts r.regs ++ " all=" ++ showTgts r.allRegs ++ " refd=" ++ showNats (referenced e)
+        ++ " tied=" ++ showNats (tiedIds e) ++ " kids=" ++ toString r.innerCount
+        ++ " depth=" ++ toString (depth e)
+    | _ => "parse-error"
 
 end Sigc.Visit
